@@ -20,7 +20,7 @@ LEVEL_TEXT = ('Lean 4 theorems over a line-by-line model of Tokenizer.iterchars/
               'Tables and token classes are regenerated from the live code each run; the model is tied to the real Tokenizer by exhaustive short strings and seeded long strings under many tables, '
               'and the property oracle is an independent Python rendering of TeX\'s rules.')
 LEVEL_NOTE = ('Trusted: Lean kernel, translator (reads DEFAULT_CATEGORIES/VERBATIM_CATEGORIES/tokenClasses from the imported module, lookup order by AST), correspondence harness, '
-              'the Python oracle tex_lex used for the failing-input search. Not modelled: \\let aliasing of tokens (get_let), lineNumber, file/bytes decoding (the bytes, open-file, TeX.input and TeX(file=) entry points are required to give the string entry's tokens on a sixteenth of the cases; assignments made by the \\catcode primitive inside the text are tied by prim documents against dynRun); ^^xy hex form and chained ^^ decoding are not implemented by plasTeX and are outside the statement (recorded deviations).')
+              'the Python oracle tex_lex used for the failing-input search. Not modelled: \\let aliasing of tokens (get_let), lineNumber, file/bytes decoding (the bytes, open-file, TeX.input and TeX(file=) entry points are required to give the tokens of the string entry on a sixteenth of the cases; assignments made by the \\catcode primitive inside the text are tied by prim documents against dynRun); ^^xy hex form and chained ^^ decoding are not implemented by plasTeX and are outside the statement (recorded deviations).')
 TECHNIQUE = 'Lean 4 proof (invariant induction over catcode assignments; functional induction over the tokenizer) + regenerated tables + exhaustive/seeded differential correspondence'
 TRUSTED = ['python oracle harness/props/c01.py:tex_lex (property-level reference lexer used for prop_ok and the search)']
 ASSUMPTIONS = ['string sources only (no byte decoding)', 'no \\let aliases in force while tokenizing', 'category codes 0..15', 'no lone surrogates in the input']
